@@ -22,6 +22,7 @@ func main() {
 
 func scenario(seed int64, k int, res *l2.Result) {
 	plan := l2.PlanFromSeed(seed, k)
+	_ = k
 	res.Name = fmt.Sprintf("c04-%d", k)
 	res.Fingerprint = plan.Describe()
 	b := l2.Build(plan)
@@ -79,6 +80,43 @@ func scenario(seed int64, k int, res *l2.Result) {
 		if !reorgBelowCheckpoint(plan, f.Height) {
 			good = phase("reorg", nt.Height, ok, stuck, last)
 		}
+	}
+	// Stability: with the honest chain at rest, a RESTARTED client (its
+	// in-memory header window holds only the tip again) must keep reporting
+	// the honest tip while the other peers push their own (lighter, stale,
+	// invalid) chains at it.
+	if good && k%2 == 0 {
+		tip = b.Tip()
+		b.StopBackground()
+		if err := w.RestartClient(nil, l2.ClientOpts{}, 60*time.Second); err != nil {
+			res.Inconcl("restart: " + err.Error())
+		} else {
+			l2.WaitFor(10*time.Second, func() bool {
+				for _, hp := range b.Honest {
+					if hp.Conn() != nil && !hp.Conn().Dead() {
+						select {
+						case <-hp.Ready:
+							return w.SyncedTo(tip)
+						default:
+						}
+					}
+				}
+				return false
+			})
+			if w.SyncedTo(tip) {
+				pushed := b.PushSideChains()
+				res.Count("side_chains_pushed_after_restart", int64(pushed))
+				if v, n := b.WatchStable(tip, 1500*time.Millisecond); v != "" {
+					res.Violate(evid.Sig("c04/left-honest-tip/after-restart", classify(plan)),
+						"after a restart, with the honest chain at rest and the honest peer connected: "+v, witness())
+				} else {
+					res.Count("stability_samples", int64(n))
+				}
+			} else {
+				res.Inconcl("restarted client not at the honest tip before the stability phase")
+			}
+		}
+		b.RestartBackground()
 	}
 	b.StopBackground()
 	res.Count("api_samples", b.Sampled.Load())
